@@ -387,26 +387,13 @@ func canServeRule(p *chk.Prog, r *chk.Report) {
 	}
 	g := f.Graph()
 	c := isParamIdx(f, 0)
-	ready := g.GPat(true, "C.Ready == nil || *C.Ready", chk.H("C", c))
-	serving := g.GPat(true, "C.Serving != nil && *C.Serving", chk.H("C", c))
-	nt, nf := 0, 0
-	for _, rt := range g.Returns() {
-		res := retResults(rt)
-		if len(res) != 1 {
-			continue
-		}
-		switch {
-		case f.IsConstBool(res[0], true):
-			nt++
-			x.Check("EndpointCanServe:true#"+itoa(nt), rt.Pos(), g.Dominated(rt, ready) || g.Dominated(rt, serving), "", "EndpointCanServe can be true for an endpoint that is neither ready nor serving")
-		case f.IsConstBool(res[0], false):
-			nf++
-			x.Check("EndpointCanServe:false", rt.Pos(), g.Dominated(rt, g.GPat(false, "C.Ready == nil || *C.Ready", chk.H("C", c))) && g.Dominated(rt, g.GPat(false, "C.Serving != nil && *C.Serving", chk.H("C", c))), "", "EndpointCanServe can be false for a ready or serving endpoint")
-		default:
-			x.Fail("EndpointCanServe:return-shape", rt.Pos(), "a return that is not a boolean constant")
-		}
-	}
-	x.Check("EndpointCanServe:shape", f.Pos(), nt == 2 && nf == 1, "", "expected the ready arm, the serving arm and the final false")
+	// the result as a boolean function of the four atoms Ready == nil, *Ready, Serving == nil, *Serving
+	// (decided by enumerating their truth assignments along every path; the spelling of the function is free)
+	canServe := g.GPat(true, "C.Ready == nil || *C.Ready || (C.Serving != nil && *C.Serving)", chk.H("C", c))
+	why := g.BoolResultIs(canServe)
+	x.Check("EndpointCanServe:truth-table", f.Pos(), why == "", "", "EndpointCanServe is not `Ready == nil || *Ready || (Serving != nil && *Serving)`: "+why)
+	x.Check("EndpointCanServe:reads-conditions", f.Pos(), len(g.FindPat("C.Ready", chk.H("C", c))) > 0 && len(g.FindPat("C.Serving", chk.H("C", c))) > 0, "", "EndpointCanServe does not read both conditions")
+	x.OK("EndpointCanServe:returns", f.Pos(), "")
 }
 
 func itoa(i int) string {
